@@ -187,6 +187,8 @@ class RepeatedNodeWrapper(MutableSequence[_M]):
         if isinstance(index, int):
             assert not isinstance(value, Iterable)
             item = self._repeated.items[index]
+            if index < 0:
+                index += len(self._repeated.items)
             self._repeated.token_store.splice(value.detach(), item.first_token, item.last_token)
             value.reattach(self._repeated.token_store)
             self._repeated.items[index] = value
@@ -195,6 +197,8 @@ class RepeatedNodeWrapper(MutableSequence[_M]):
         assert isinstance(value, Iterable)
         values = list(value)
         r = indexes.range_from_index(index, len(self._repeated.items))
+        if r.step == 1 and r.stop < r.start:
+            r = range(r.start, r.start)
         separators_before_last = (
             self._repeated.token_store.get_prev(self._repeated.items[0].first_token)
             if self._repeated.items else None)
@@ -217,6 +221,8 @@ class RepeatedNodeWrapper(MutableSequence[_M]):
             self._notify()
 
     def insert(self, index: int, value: _M) -> None:
+        if index < 0:
+            index = max(index + len(self._repeated.items), 0)
         index = min(index, len(self._repeated.items))
         self._insert_tokens(index, [value])
         value.reattach(self._repeated.token_store)
